@@ -51,6 +51,14 @@ pub fn check_children(run: &mut Run, c: MCell, target: i32, deep: bool) {
                     run.violation("C07.alias", json!({"cell": hu(id), "alias": hu(w), "target": target}), format!("cell_to_children({}) is accepted as an alias of {} but returns different children", hu(w), hu(id)));
                 }
             }
+            // the default request as well (next finer level)
+            if c.res < MAX_RES {
+                if let (Ok(va), Ok(vc)) = (children(w, None), children(id, None)) {
+                    if va != vc {
+                        run.violation("C07.alias", json!({"cell": hu(id), "alias": hu(w), "target": "default"}), format!("cell_to_children({}, None) is accepted as an alias of {} but returns different children", hu(w), hu(id)));
+                    }
+                }
+            }
             if let (Ok(pa), Ok(pc)) = (parent(w, None), parent(id, None)) {
                 if pa != pc {
                     run.violation("C07.alias", json!({"cell": hu(id), "alias": hu(w), "target": target}), format!("cell_to_parent({}) = {} but the aliased cell's parent is {}", hu(w), hu(pa), hu(pc)));
